@@ -2,7 +2,7 @@
 generated statement run on a shared map in the Coq ISA model, one instruction at
 a time under many schedules; the variable must change by the sum of all amounts."""
 from .common import Check, Err, clist, cz, cnat, eval_terms
-from . import dsl, exprs, ebpf_exec, isa_check
+from . import dsl, exprs, ebpf_exec, isa_check, sim_kernel
 from .c01 import layout_bytes
 
 FMTS = ["i", "I", "q", "Q"]
@@ -10,6 +10,40 @@ FMTS = ["i", "I", "q", "Q"]
 
 def wrap(fmt, v):
     return dsl.from_bytes(fmt, dsl.to_bytes(fmt, v))
+
+
+def build_devvar(case, rv):
+    """`dev.v += amount` in the program of a Device whose sync group generates code: the variable is a DeviceVar in the shared
+    device_properties map of the group"""
+    from ebpfcat.ebpfcat import Device, DeviceVar, device_properties
+    from ebpfcat.ebpf import EBPF, LocalVar, AssembleError
+    from ebpfcat.bpf import ProgType
+    res = dsl.Built()
+    wr = len(case["regvals"]) % 4 == 0
+    Dev = type("Dev", (Device,), {"n0": DeviceVar("I"), "v": DeviceVar(case["fmt"], write=wr) if wr else DeviceVar(case["fmt"]), "n1": DeviceVar("I"),
+                                  "o": LocalVar(case["ofmt"]), "program": lambda self: None})
+    Main = type("Main", (EBPF,), {"properties": device_properties})
+    with sim_kernel.installed() as kernel:
+        try:
+            dev = Dev()
+            e = Main(ProgType.XDP, "GPL", subprograms=[dev])
+            dev.sync_group = e
+            # (the device's local is set by the program itself: the map lookup at the start of the main program uses scratch bytes that
+            # a subprogram's locals may share - harmless, since no local holds a value yet at that point)
+            dsl.run_stmts(dev, [["set", ["r", "r", 3], ["c", rv]], ["set", ["v", "o"], ["c", case["oval"]]], [case["op"], ["v", "v"], case["amount"]]])
+            e.r0 = 2
+            e.exit()
+        except (AssembleError, AssertionError, TypeError, ValueError, KeyError, AttributeError, OverflowError) as ex:
+            res.error = f"{type(ex).__name__}: {ex}"
+            return res
+        fds = {fd: k for k, fd in enumerate(kernel.maps)}
+        res.instrs = [(op.value, dst, src, off, fds.get(imm, 0) if op.value == 0x18 and src == 1 else imm) for op, dst, src, off, imm in e.opcodes]
+    for n in ("n0", "v", "n1"):
+        res.layout[n] = ("array", "I" if n != "v" else case["fmt"], dev.__dict__[n])
+    res.layout["o"] = ("local", case["ofmt"], Dev.__dict__["o"].fmt_addr(dev)[1])
+    res.stack_size = max(16, -min(0, getattr(e, "stack", 0)))
+    res.map_size = device_properties.size
+    return res
 
 
 class C06(Check):
@@ -55,6 +89,15 @@ class C06(Check):
             # fixed-point: amounts are integer or decimal constants, the scaled value starts near a 32-bit boundary
             kind = "const"
             amount = ["c", rng.choice([1, 2, 1000, 42949, 0.75, 1.25, 0.5, 42949.67296, 0.00001])]
+            if k % 2 == 1 or not shared:
+                # ... or an integer amount known only at run time (a signed register): scaled by the generated code, in 64 bits
+                kind = "reg"
+                amount = ["r", "sr", 3]
+                regvals = [[3, -4, 42950, -3, 100000, 7, -42950, 1][(j + len(regvals) + abs(oval)) % 8] for j in range(k)]
+        if shared and kind_mem == "array" and xdp is None and fmt != "x" and len(regvals) % 2 == 0:
+            # the variable is a DeviceVar of a device in a program-generating sync group (the route of FastSyncGroup devices); declared with
+            # the default write=False or with write=True
+            kind_mem = "devvar"
         return {"fmt": fmt, "shared": shared, "mem": kind_mem, "k": k, "op": rng.choice(["iadd", "isub"]), "amount": amount,
                 "ofmt": ofmt, "oval": oval, "regvals": regvals,
                 "init": rng.choice([0, 25000, -25000, -1, 1, 2 ** 32 - 50000, 2 ** 32 - 1, -2 ** 32 + 50000, 2 ** 31, 7 * 2 ** 32 - 3]) if fmt == "x" else exprs.rand_value(rng, fmt),
@@ -86,7 +129,13 @@ class C06(Check):
             pinned = os.sched_getaffinity(0) if i % 4 == 1 else None
             if pinned:
                 os.sched_setaffinity(0, {min(pinned)})
-            for rv in c["regvals"]:
+            for rv in (c["regvals"] if c.get("mem") == "devvar" else []):
+                b = build_devvar(c, rv)
+                if b.error is not None:
+                    c["_err"] = b.error
+                    break
+                c["_progs"].append(b)
+            for rv in (c["regvals"] if c.get("mem") != "devvar" else []):
                 tgt = ["p", "v", c.get("preg", 9)] if c.get("mem") == "ptr" else ["v", "v"]
                 # "xdp": the statement sits in an XDP program with a minimum packet size (a packet object exists)
                 b = dsl.build(decls, [["set", ["r", "r", 3], ["c", rv]], [c["op"], tgt, c["amount"]]], xdp_min=c.get("xdp"))
@@ -164,6 +213,8 @@ class C06(Check):
         res = []
         if case["fmt"] == "x":
             from fractions import Fraction
+            if case["amount"][0] == "r":
+                return [(rv * 100000) if case["op"] == "iadd" else -(rv * 100000) for rv in case["regvals"]]
             a = int(Fraction(str(case["amount"][1])) * 100000)
             return [a if case["op"] == "iadd" else -a for _ in case["regvals"]]
         for rv in case["regvals"]:
@@ -211,7 +262,7 @@ class C06(Check):
         return [isa_check.check(self.seed + 3, 40 if self.tier == "quick" else 300), hash_check.check(self.seed + 7, 40 if self.tier == "quick" else 300)]
 
     def rule(self):
-        return ("v += / -= amount on an i/I/q/Q/x variable of a shared array map (directly, or through a pointer register r6/r8/r9: e.mI[e.r9 + offset] += amount) or hash map or per-CPU array map (instances preempting each other on one CPU); a third of the array-map cases inside an XDP program with a minimum packet size between two 4-byte neighbours (80%; else a local, single instance), amount = constant "
+        return ("v += / -= amount on an i/I/q/Q/x variable of a shared array map (directly, or through a pointer register r6/r8/r9: e.mI[e.r9 + offset] += amount) or hash map or per-CPU array map (instances preempting each other on one CPU) or a DeviceVar (write=False and write=True) of a device in a program-generating sync group; a third of the array-map cases inside an XDP program with a minimum packet size between two 4-byte neighbours (80%; else a local, single instance), amount = constant "
                 "(small, 2**31, 2**32+5, negative) / r or sr register / expression over the register, a private local and constants; 2-3 instances with different "
                 "register values; schedules: round robin, sequential both ways, four adversarial ones (everybody up to 2..5 instructions before its end, then round "
                 "robin), 4 (thorough 12) random shuffles; every fourth program is generated while the process is pinned to one CPU")
